@@ -1130,6 +1130,8 @@ class Frame:
         if isinstance(obj, HDict):
             if name == "default_factory":
                 return obj.factory
+            if name == "__class__" and obj.pytype in DICT_CLASSES:
+                return FuncRef(None, cls=obj.pytype)
             if hasattr(obj, "attr_" + name):
                 return getattr(obj, "attr_" + name)
             if obj.pytype in DICT_CLASSES:
@@ -1138,6 +1140,18 @@ class Frame:
                     return FuncRef(m, self_obj=obj)
         if isinstance(obj, FuncRef) and obj.builtin == "OrderedDict":
             return FuncRef(None, builtin="extmethod:OrderedDict." + name, self_obj=None, super_of=("unbound",))
+        if isinstance(obj, dict) and not isinstance(obj, HDict) or (isinstance(obj, HDict) and obj.pytype in ("dict", "OrderedDict")):
+            import collections as _c
+
+            if not hasattr(_c.OrderedDict, name):
+                # not an attribute of a plain dictionary; a harness whose dictionaries stand for richer objects
+                # (jsonref proxies) says what those carry
+                hook = I.stubs.get("hook:dict_attr")
+                if hook:
+                    r = hook(self, obj, name)
+                    if r is not NotImplemented:
+                        return r
+                raise PyExc("AttributeError", (f"'dict' object has no attribute '{name}'",), node)
         # methods of values
         return FuncRef(None, builtin="method:" + name, self_obj=obj)
 
